@@ -22,11 +22,19 @@ def _judge(run):
 
 P = ScenarioProperty(
     PROP,
-    {"levels": (2, 3), "lsc_kinds": ["DontStop", "MetaepochLimit", "MetaepochLimit", "FitnessSteadiness", "AllChildrenStopped", "DontRun", "Scripted", "Scripted", "Scripted"], "cap": (7, 12)},
+    {
+        "levels": (2, 3),
+        "lsc_kinds": ["DontStop", "MetaepochLimit", "MetaepochLimit", "FitnessSteadiness", "AllChildrenStopped", "DontRun", "Scripted", "Scripted", "Scripted"],
+        "root_lsc_kinds": ["DontStop", "DontStop", "DontStop", "MetaepochLimit", "AllChildrenStopped", "Scripted"],
+        "cap": (8, 12),
+        "sprouty": True,
+        "level_limit_min": 2,
+        "gsc_kinds": ["MetaepochLimit", "SingularProblemEvalLimitReached", "FitnessEvalLimitReached", "AllStopped", "NoActiveNonrootDemes", "RootStopped", "Never", "Never", "Never"],
+    },
     lambda sc: [C06Checker(sc)],
     _judge,
     quick=3200,
-    thorough=60000,
+    thorough=60000, machine={},
 )
 run_shard = P.run_shard
 replay = P.replay
